@@ -49,7 +49,7 @@ cd /verif
 if ! git -C /repo apply "$D/patch.diff"; then say "RESULT patch-does-not-apply-to-repo"; exit 2; fi
 CAUGHT=""
 for C in $CHECKS; do
-  ./check "$C" "$TIER" > "$D/check-$C-$TIER.log" 2>&1; RC=$?
+  VERIF_EVIDENCE_DIR=/var/tmp/seedtest-evidence ./check "$C" "$TIER" > "$D/check-$C-$TIER.log" 2>&1; RC=$?
   V=$(grep -c '^VIOLATION' "$D/check-$C-$TIER.log")
   say "check $C $TIER: exit=$RC violations=$V $(grep '^  key=' "$D/check-$C-$TIER.log" | head -3 | tr '\n' ' ')"
   [ $RC -eq 1 ] && [ "$V" -gt 0 ] && CAUGHT="$CAUGHT $C"
